@@ -235,11 +235,48 @@ def record(rng, lut_name, law=None, spelling=None):
                 pxs = rng.choice(pxl) if spelling is None \
                     else pxl[spelling % 4]
                 rec["px_um"] = pxs
-                delta = pxcorr.get_pixelation_delta(
-                    feat_corr="deform", feat_absc="volume" if is3d
-                    else "area_um", data_absc=x.copy(), px_um=pxs)
+                # the published correction (triple-exponential decay in
+                # the area / volume expressed in 0.34 um pixels), written
+                # out here independently of dclab
+                if is3d:
+                    xs_ = x * (0.34 / pxs) ** 3
+                    delta = 0.0013 + 0.0172 * np.exp(-xs_ / 40) \
+                        + 0.0070 * np.exp(-xs_ / 450) \
+                        + 0.0032 * np.exp(-xs_ / 6040)
+                else:
+                    xs_ = x * (0.34 / pxs) ** 2
+                    delta = 0.0012 + 0.020 * np.exp(-xs_ / 7.1) \
+                        + 0.010 * np.exp(-xs_ / 38.6) \
+                        + 0.005 * np.exp(-xs_ / 296)
                 a = call(defo, x, **dict(num, px_um=pxs))
                 b = call(defo - delta, x, **num)
+            elif law == "pixelation-volume":
+                # a user-supplied table over (volume, deform): the built-in
+                # table with its area axis re-expressed as a volume
+                import copy as _copy
+                arr, meta = load_lut(lut_name)
+                if not is3d:
+                    arr = np.array(arr, copy=True)
+                    arr[:, 0] = arr[:, 0] ** 1.5
+                    meta = _copy.deepcopy(meta)
+                    meta["column features"] = ["volume", "deform",
+                                               "emodulus"]
+                pxl = [0.12, 0.227, 0.5, 0.34]
+                pxs = pxl[(spelling or 0) % 4]
+                rec["px_um"] = pxs
+                cwr = cw / 20.0
+                xv = (rs.uniform(30, 250, n) ** 1.5) * cwr ** 3
+                xs_ = xv * (0.34 / pxs) ** 3
+                delta = 0.0013 + 0.0172 * np.exp(-xs_ / 40) \
+                    + 0.0070 * np.exp(-xs_ / 450) \
+                    + 0.0032 * np.exp(-xs_ / 6040)
+                kwv = dict(base, lut_data=(arr, meta), **num)
+                a = get_emodulus(deform=defo.copy(), volume=xv.copy(),
+                                 **dict(kwv, px_um=pxs))
+                b = get_emodulus(deform=defo - delta, volume=xv.copy(),
+                                 **dict(kwv, px_um=0.0))
+                x = xv
+                x0 = xv.copy()
             elif law == "pixelation-split":
                 a = call(defo, x, **dict(num, px_um=0.34))
                 b = np.concatenate(
@@ -309,6 +346,8 @@ def main(tier, seed, replay=None):
             for k in range(4 if q else 20):
                 jobs.append((random.Random(rng.randrange(2**31)), lut,
                              "pixelation", k))
+                jobs.append((random.Random(rng.randrange(2**31)), lut,
+                             "pixelation-volume", k))
         # every documented spelling of every medium (tables in turn)
         for k in range(40 if q else 120):
             jobs.append((random.Random(rng.randrange(2**31)), luts[k % 3],
